@@ -35,6 +35,19 @@ QUERY_SEM = ['E<> f() > 0', 'E<> f(1) > 0', 'E<> f(1, g) > 0', 'E<> f(1, g, 2, 3
              'E<> a', 'E<> s', 'A[] x', 'sup: f', 'inf: P', 'Pr[<=f](<> b)', 'Pr[<=10](<> f)', 'E<> forall (i : int[0,1]) f() > i', 'simulate [<=10] {f(), g}', 'E<> a[f()] > 0', 'E<> (b ? f() : 1) > 0', 'E<> f(f(), g, 1) > 0',
              'E<> s.a(1) > 0', 'E<> P.v(1) > 0', 'E<> sum (i : int[0,1]) f(i) > 0', 'A[] f(1, g, 2) > 0 imply f()', 'E<> x.v > 0', 'E<> c(1)', 'E<> d[0](1)', 'control: A[] f()', '{f()} control: A[] b', 'E[<=10; 100](max: f())',
              'strategy q1 = minE(f())[<=20] {g} -> {x} : <> b', 'E<> P.L(1)', 'E<> deadlock(1)', 'E<> exists (i : sc) f(i) > 0', 'E<> 1(2) > 0', 'E<> "s"(1)', "E<> x'(1) > 0", 'E<> (f)(1, g, 2) > 0', 'E<> f(1, 2 + g, 2) > 0']
+def type_pairs():
+    """declarations in which two objects whose types differ in a const prefix, a range or the element / field type meet: compared, assigned, passed by reference,
+    in both branches of a conditional; at the top level of the type and below it (array elements, record fields)"""
+    ELEM = [('int', '1'), ('const int', '1'), ('int[0,5]', '1'), ('const int[0,5]', '1'), ('bool', 'true'), ('const bool', 'true'), ('id_t', '1'), ('S', '{1, true}'), ('const S', '{1, true}'), ('double', '1.5')]
+    out = []
+    for t1, i1 in ELEM:
+        for t2, i2 in ELEM:
+            out.append('%s pa[2] = {%s, %s}; %s pb[2] = {%s, %s}; %s qa = %s; %s qb = %s; struct { %s f; int z; } ra = {%s, 0}; struct { %s f; int z; } rb = {%s, 0};\n'
+                       'void tf() { if (pa == pb) { } if (qa == qb) { } if (ra == rb) { } }\nvoid tg(%s &r[2], %s &w) { }\nvoid th() { tg(pb, qb); }\nvoid ti() { pb = pa; qb = qa; rb = ra; }\n'
+                       'void tj() { (b ? pa : pb)[0] = (b ? qa : qb); }' % (t1, i1, i1, t2, i2, i2, t1, i1, t2, i2, t1.replace('const ', ''), i1, t2.replace('const ', ''), i2, t1, t1))
+    return out
+
+
 XTA = [
     'clock x; int g; chan c;\nprocess P(int k) { int v; state A { x <= 3 }, B, C { x <= 2 ; 3 }; commit B; urgent C; init A;\n trans A -> B { select i : int[0,2]; guard g == i; sync c!; assign g = 1, v = i; }, B -u-> C { probability 2; }, -> A { }, C -> A { assign x = 0; }; }\nP1 = P(1); system P1;',
     'int g;\nprocess Q() { state L; branchpoint b1; init L; trans L -> b1 { }, b1 -> L { probability 1; assign g = 0; }; }\nsystem Q;',
